@@ -168,3 +168,198 @@ Lemma tie_my_fileset_updated : TIE_my_fileset_updated =
    (1, "return(true)");
    (0, "return(false)")].
 Proof. reflexivity. Qed.
+
+(* mtbl/fileset.c: fileset_iter_seek *)
+Lemma tie_fs_fileset_iter_seek : TIE_fs_fileset_iter_seek =
+  [(0, "structfileset_iter*it=(structfileset_iter*)v");
+   (0, "returnmtbl_iter_seek(it->iter,key,len)")].
+Proof. reflexivity. Qed.
+
+(* mtbl/fileset.c: fileset_iter_next *)
+Lemma tie_fs_fileset_iter_next : TIE_fs_fileset_iter_next =
+  [(0, "structfileset_iter*it=(structfileset_iter*)v");
+   (0, "returnmtbl_iter_next(it->iter,key,len_key,val,len_val)")].
+Proof. reflexivity. Qed.
+
+(* mtbl/fileset.c: fileset_source_iter *)
+Lemma tie_fs_fileset_source_iter : TIE_fs_fileset_source_iter =
+  [(0, "structmtbl_fileset*f=(structmtbl_fileset*)clos");
+   (0, "mtbl_fileset_reload(f)");
+   (0, "returnfileset_iter_init(f,mtbl_source_iter(mtbl_merger_source(f->merger)))")].
+Proof. reflexivity. Qed.
+
+(* mtbl/fileset.c: fileset_source_get *)
+Lemma tie_fs_fileset_source_get : TIE_fs_fileset_source_get =
+  [(0, "structmtbl_fileset*f=(structmtbl_fileset*)clos");
+   (0, "mtbl_fileset_reload(f)");
+   (0, "returnfileset_iter_init(f,mtbl_source_get(mtbl_merger_source(f->merger),key,len_key))")].
+Proof. reflexivity. Qed.
+
+(* mtbl/fileset.c: fileset_source_get_prefix *)
+Lemma tie_fs_fileset_source_get_prefix : TIE_fs_fileset_source_get_prefix =
+  [(0, "structmtbl_fileset*f=(structmtbl_fileset*)clos");
+   (0, "mtbl_fileset_reload(f)");
+   (0, "returnfileset_iter_init(f,mtbl_source_get_prefix(mtbl_merger_source(f->merger),key,len_key))")].
+Proof. reflexivity. Qed.
+
+(* mtbl/fileset.c: fileset_source_get_range *)
+Lemma tie_fs_fileset_source_get_range : TIE_fs_fileset_source_get_range =
+  [(0, "structmtbl_fileset*f=(structmtbl_fileset*)clos");
+   (0, "mtbl_fileset_reload(f)");
+   (0, "returnfileset_iter_init(f,mtbl_source_get_range(mtbl_merger_source(f->merger),key0,len_key0,key1,len_key1))")].
+Proof. reflexivity. Qed.
+
+(* mtbl/fileset.c: mtbl_fileset_options_init *)
+Lemma tie_fs_mtbl_fileset_options_init : TIE_fs_mtbl_fileset_options_init =
+  [(0, "structmtbl_fileset_options*opt");
+   (0, "opt=my_calloc(1,sizeof(*opt))");
+   (0, "opt->reload_interval=DEFAULT_FILESET_RELOAD_INTERVAL");
+   (0, "return(opt)")].
+Proof. reflexivity. Qed.
+
+(* mtbl/fileset.c: mtbl_fileset_options_set_merge_func *)
+Lemma tie_fs_mtbl_fileset_options_set_merge_func : TIE_fs_mtbl_fileset_options_set_merge_func =
+  [(0, "opt->merge=merge");
+   (0, "opt->merge_clos=clos")].
+Proof. reflexivity. Qed.
+
+(* mtbl/fileset.c: mtbl_fileset_options_set_dupsort_func *)
+Lemma tie_fs_mtbl_fileset_options_set_dupsort_func : TIE_fs_mtbl_fileset_options_set_dupsort_func =
+  [(0, "opt->dupsort=dupsort");
+   (0, "opt->dupsort_clos=clos")].
+Proof. reflexivity. Qed.
+
+(* mtbl/fileset.c: mtbl_fileset_options_set_filename_filter_func *)
+Lemma tie_fs_mtbl_fileset_options_set_filename_filter_func : TIE_fs_mtbl_fileset_options_set_filename_filter_func =
+  [(0, "opt->fname_filter=fname_filter");
+   (0, "opt->fname_filter_clos=clos")].
+Proof. reflexivity. Qed.
+
+(* mtbl/fileset.c: mtbl_fileset_options_set_reader_filter_func *)
+Lemma tie_fs_mtbl_fileset_options_set_reader_filter_func : TIE_fs_mtbl_fileset_options_set_reader_filter_func =
+  [(0, "opt->reader_filter=reader_filter");
+   (0, "opt->reader_filter_clos=clos")].
+Proof. reflexivity. Qed.
+
+(* mtbl/fileset.c: mtbl_fileset_options_set_reload_interval *)
+Lemma tie_fs_mtbl_fileset_options_set_reload_interval : TIE_fs_mtbl_fileset_options_set_reload_interval =
+  [(0, "opt->reload_interval=reload_interval")].
+Proof. reflexivity. Qed.
+
+(* mtbl/fileset.c: mtbl_fileset_source *)
+Lemma tie_fs_mtbl_fileset_source : TIE_fs_mtbl_fileset_source =
+  [(0, "assert(f!=NULL)");
+   (0, "assert(f->source!=NULL)");
+   (0, "return(f->source)")].
+Proof. reflexivity. Qed.
+
+(* mtbl/fileset.c: mtbl_fileset_partition *)
+Lemma tie_fs_mtbl_fileset_partition : TIE_fs_mtbl_fileset_partition =
+  [(0, "constchar*fname");
+   (0, "structmtbl_reader*reader");
+   (0, "size_ti=0");
+   (0, "mtbl_fileset_reload(f)");
+   (0, "*m1=mtbl_merger_init(f->mopt)");
+   (0, "*m2=mtbl_merger_init(f->mopt)");
+   (0, "while(my_fileset_get(f->shared_fs->my_fs,i++,&fname,(void**)&reader))");
+   (1, "if(cb(fname,clos))mtbl_merger_add_source(*m1,mtbl_reader_source(reader))");
+   (1, "elsemtbl_merger_add_source(*m2,mtbl_reader_source(reader))")].
+Proof. reflexivity. Qed.
+
+(* mtbl/fileset.c: fs_load *)
+Lemma tie_fs_fs_load : TIE_fs_fs_load =
+  [(0, "structshared_fileset*f=(structshared_fileset*)my_fileset_user(fs)");
+   (0, "f->n_loaded++");
+   (0, "return(mtbl_reader_init(fname,NULL))")].
+Proof. reflexivity. Qed.
+
+(* mtbl/fileset.c: fs_unload *)
+Lemma tie_fs_fs_unload : TIE_fs_fs_unload =
+  [(0, "structshared_fileset*f=(structshared_fileset*)my_fileset_user(fs)");
+   (0, "structmtbl_reader*r=(structmtbl_reader*)ptr");
+   (0, "f->n_unloaded++");
+   (0, "mtbl_reader_destroy(&r)")].
+Proof. reflexivity. Qed.
+
+(* mtbl/fileset.c: mtbl_fileset_set_options *)
+Lemma tie_fs_mtbl_fileset_set_options : TIE_fs_mtbl_fileset_set_options =
+  [(0, "assert(opt!=NULL)");
+   (0, "f->reload_interval=opt->reload_interval");
+   (0, "f->mopt=mtbl_merger_options_init()");
+   (0, "mtbl_merger_options_set_merge_func(f->mopt,opt->merge,opt->merge_clos)");
+   (0, "mtbl_merger_options_set_dupsort_func(f->mopt,opt->dupsort,opt->dupsort_clos)");
+   (0, "f->fname_filter=opt->fname_filter");
+   (0, "f->fname_filter_clos=opt->fname_filter_clos");
+   (0, "f->reader_filter=opt->reader_filter");
+   (0, "f->reader_filter_clos=opt->reader_filter_clos");
+   (0, "f->merger=mtbl_merger_init(f->mopt)");
+   (0, "f->source=mtbl_source_init(fileset_source_iter,fileset_source_get,fileset_source_get_prefix,fileset_source_get_range,NULL,f)")].
+Proof. reflexivity. Qed.
+
+(* mtbl/fileset.c: mtbl_fileset_options_destroy *)
+Lemma tie_fs_mtbl_fileset_options_destroy : TIE_fs_mtbl_fileset_options_destroy =
+  [(0, "if(*opt)");
+   (1, "free(*opt)");
+   (1, "*opt=NULL")].
+Proof. reflexivity. Qed.
+
+(* libmy/my_fileset.c: path_exists *)
+Lemma tie_mfs_path_exists : TIE_mfs_path_exists =
+  [(0, "structstatsb");
+   (0, "intret");
+   (0, "ret=stat(path,&sb)");
+   (0, "if(ret<0)return(false)");
+   (0, "return(true)")].
+Proof. reflexivity. Qed.
+
+(* libmy/my_fileset.c: cmp_fileset_entry *)
+Lemma tie_mfs_cmp_fileset_entry : TIE_mfs_cmp_fileset_entry =
+  [(0, "structfileset_entry*fs0=*((structfileset_entry**)a)");
+   (0, "structfileset_entry*fs1=*((structfileset_entry**)b)");
+   (0, "assert(a!=NULL)");
+   (0, "assert(b!=NULL)");
+   (0, "assert(fs0!=NULL)");
+   (0, "assert(fs1!=NULL)");
+   (0, "assert(fs0->fname!=NULL)");
+   (0, "assert(fs1->fname!=NULL)");
+   (0, "return(strcmp(fs0->fname,fs1->fname))")].
+Proof. reflexivity. Qed.
+
+(* libmy/my_fileset.c: fetch_entry *)
+Lemma tie_mfs_fetch_entry : TIE_mfs_fetch_entry =
+  [(0, "structfileset_entry**ent");
+   (0, "structfileset_entrykey=");
+   (1, ".fname=fname,.ptr=NULL");
+   (0, "structfileset_entry*pkey=&key");
+   (0, "ent=bsearch(&pkey,entry_vec_data(entries),entry_vec_size(entries),sizeof(void*),cmp_fileset_entry)");
+   (0, "return(ent)")].
+Proof. reflexivity. Qed.
+
+(* libmy/my_fileset.c: my_fileset_init *)
+Lemma tie_mfs_my_fileset_init : TIE_mfs_my_fileset_init =
+  [(0, "assert(path_exists(setfile))");
+   (0, "structmy_fileset*fs=my_calloc(1,sizeof(*fs))");
+   (0, "char*t=my_strdup(setfile)");
+   (0, "fs->setdir=my_strdup(dirname(t))");
+   (0, "free(t)");
+   (0, "fs->setfile=my_strdup(setfile)");
+   (0, "fs->load=load");
+   (0, "fs->unload=unload");
+   (0, "fs->user=user");
+   (0, "fs->entries=entry_vec_init(1)");
+   (0, "return(fs)")].
+Proof. reflexivity. Qed.
+
+(* libmy/my_fileset.c: my_fileset_user *)
+Lemma tie_mfs_my_fileset_user : TIE_mfs_my_fileset_user =
+  [(0, "return(fs->user)")].
+Proof. reflexivity. Qed.
+
+(* libmy/my_fileset.c: my_fileset_get *)
+Lemma tie_mfs_my_fileset_get : TIE_mfs_my_fileset_get =
+  [(0, "if(i<entry_vec_size(fs->entries))");
+   (1, "*fname_out=entry_vec_value(fs->entries,i)->fname");
+   (1, "*ptr_out=entry_vec_value(fs->entries,i)->ptr");
+   (1, "return(true)");
+   (0, "return(false)")].
+Proof. reflexivity. Qed.
